@@ -585,6 +585,8 @@ class Report:
                 "traces_validated_against_impl": sum(v.get("cases", 0) for v in self.t2.values()),
                 "broken": self.broken,
                 "known_findings_replayed": sorted(self.known_printed),
+                "coqchk": getattr(self, "coqchk", None),
+                "model_files": getattr(self, "model_files", None),
                 "notes": self.notes,
             },
             "assumptions": self.assumptions,
